@@ -20,6 +20,9 @@ import (
 var rtSyms = []string{"next", "response", "response-stale", "error", "init-error", "restore-next", "restore-error", "unknown", "wrong-method"}
 var platSyms = []string{"INVOKE", "RESTORE"}
 
+// oversizeBody is one byte over the response size limit.
+var oversizeBody = make([]byte, 6*1024*1024+100+1)
+
 type state int
 
 const (
@@ -111,6 +114,17 @@ func (m *model) call(sym string) prediction {
 		case stRunning:
 			m.st = stResponded
 			return prediction{status: 202}
+		case stResponded:
+			return refuse403()
+		default:
+			return prediction{status: 400, etype: "InvalidRequestID"}
+		}
+	case "response-oversize":
+		// one byte over the limit: refused with 413, and the invocation is answered (with the size error) all the same
+		switch m.st {
+		case stRunning:
+			m.st = stResponded
+			return prediction{status: 413}
 		case stResponded:
 			return refuse403()
 		default:
@@ -210,6 +224,8 @@ func runSeq(snapshot bool, seq []string) (func(), *stack.Config, *[]string) {
 					r = rt.Next()
 				case "response":
 					r = rt.Response(orDummy(c.curID), []byte(`"r"`))
+				case "response-oversize":
+					r = rt.Response(orDummy(c.curID), oversizeBody)
 				case "response-stale":
 					r = rt.Response(orDummy2(c.prevID), []byte(`"stale"`))
 				case "error":
@@ -383,75 +399,86 @@ func init() {
 			maxLen = 6
 		}
 		var out []hx.Scenario
-		all := append(append([]string{}, rtSyms...), platSyms...)
-		for _, snapshot := range []bool{false, true} {
-			for _, a := range all {
-				for _, b := range all {
-					snapshot, a, b := snapshot, a, b
-					if !snapshot && (a == "RESTORE" || b == "RESTORE") {
-						continue
-					}
-					name := fmt.Sprintf("snapshot=%v prefix=%s,%s maxlen=%d", snapshot, a, b, maxLen)
-					out = append(out, hx.Scenario{Name: name, Run: func(c *hx.Ctx) *hx.ScenarioResult {
-						res := &hx.ScenarioResult{Name: name, Exhaustive: true, Outcomes: map[string]int64{}}
-						var rec func(seq []string, m model)
-						stop := false
-						rec = func(seq []string, m model) {
-							if stop {
-								return
-							}
-							if len(seq) >= 2 {
-								if c.Replay == nil || fmt.Sprint(c.Replay.Input) == strings.Join(seq, ",") {
-									body, cfg, _ := runSeq(snapshot, seq)
-									cleanup := cfg.Prepare()
-									sub := hx.ExploreScenario(c, "C12", strings.Join(seq, ","), sched.Options{Bound: 0, MaxSteps: 50000, BoundAll: true, NoEarlyClock: true}, body, judge)
-									cleanup()
-									res.Execs += sub.Execs
-									res.Evaluations += sub.Execs
-									res.States += sub.States
-									res.Transitions += sub.Transitions
-									for k, v := range sub.Outcomes {
-										res.Outcomes[k] += v
-									}
-									if len(res.Samples) < 2 {
-										res.Samples = append(res.Samples, map[string]any{"snapshot": snapshot, "sequence": strings.Join(seq, ",")})
-									}
-									for _, v := range sub.Violations {
-										v.Scenario = name
-										v.Input = strings.Join(seq, ",")
-										res.Violations = append(res.Violations, v)
-										if len(res.Violations) > 20 {
-											stop = true
+		full := append(append([]string{}, rtSyms...), platSyms...)
+		// second family: the oversize response (one byte over the limit) among the calls of a healthy runtime
+		reduced := []string{"next", "response", "response-oversize", "INVOKE"}
+		for fi, all := range [][]string{full, reduced} {
+			fi, all := fi, all
+			for _, snapshot := range []bool{false, true} {
+				if fi == 1 && snapshot {
+					continue
+				}
+				for _, a := range all {
+					for _, b := range all {
+						snapshot, a, b := snapshot, a, b
+						if !snapshot && (a == "RESTORE" || b == "RESTORE") {
+							continue
+						}
+						name := fmt.Sprintf("snapshot=%v prefix=%s,%s maxlen=%d", snapshot, a, b, maxLen)
+						if fi == 1 {
+							name = "oversize-family " + name
+						}
+						out = append(out, hx.Scenario{Name: name, Run: func(c *hx.Ctx) *hx.ScenarioResult {
+							res := &hx.ScenarioResult{Name: name, Exhaustive: true, Outcomes: map[string]int64{}}
+							var rec func(seq []string, m model)
+							stop := false
+							rec = func(seq []string, m model) {
+								if stop {
+									return
+								}
+								if len(seq) >= 2 {
+									if c.Replay == nil || fmt.Sprint(c.Replay.Input) == strings.Join(seq, ",") {
+										body, cfg, _ := runSeq(snapshot, seq)
+										cleanup := cfg.Prepare()
+										sub := hx.ExploreScenario(c, "C12", strings.Join(seq, ","), sched.Options{Bound: 0, MaxSteps: 50000, BoundAll: true, NoEarlyClock: true}, body, judge)
+										cleanup()
+										res.Execs += sub.Execs
+										res.Evaluations += sub.Execs
+										res.States += sub.States
+										res.Transitions += sub.Transitions
+										for k, v := range sub.Outcomes {
+											res.Outcomes[k] += v
+										}
+										if len(res.Samples) < 2 {
+											res.Samples = append(res.Samples, map[string]any{"snapshot": snapshot, "sequence": strings.Join(seq, ",")})
+										}
+										for _, v := range sub.Violations {
+											v.Scenario = name
+											v.Input = strings.Join(seq, ",")
+											res.Violations = append(res.Violations, v)
+											if len(res.Violations) > 20 {
+												stop = true
+											}
 										}
 									}
 								}
-							}
-							if len(seq) == maxLen {
-								return
-							}
-							for _, s := range all {
-								if len(seq) == 0 && s != a || len(seq) == 1 && s != b {
-									continue
+								if len(seq) == maxLen {
+									return
 								}
-								if !m.allowed(s) {
-									continue
+								for _, s := range all {
+									if len(seq) == 0 && s != a || len(seq) == 1 && s != b {
+										continue
+									}
+									if !m.allowed(s) {
+										continue
+									}
+									m2 := m
+									if isPlat(s) {
+										m2.event(s)
+									} else {
+										m2.call(s)
+									}
+									rec(append(append([]string{}, seq...), s), m2)
 								}
-								m2 := m
-								if isPlat(s) {
-									m2.event(s)
-								} else {
-									m2.call(s)
-								}
-								rec(append(append([]string{}, seq...), s), m2)
 							}
-						}
-						rec(nil, model{snapshot: snapshot})
-						res.Distinct = int64(len(res.Outcomes))
-						if !c.Deadline.IsZero() && false {
-							res.Exhaustive = false
-						}
-						return res
-					}})
+							rec(nil, model{snapshot: snapshot})
+							res.Distinct = int64(len(res.Outcomes))
+							if !c.Deadline.IsZero() && false {
+								res.Exhaustive = false
+							}
+							return res
+						}})
+					}
 				}
 			}
 		}
